@@ -1,4 +1,4 @@
 CONSTANT TransposeCapped = TRUE
 INIT Init
 NEXT Next
-INVARIANT Inv
+INVARIANT InvLocalLookup
